@@ -180,6 +180,20 @@ def judge(cfg, world, log, ending, exit_returns):
             return 'the child came back into supervisord code: %r' % (ending,)
         if ending == 'exit' and (not log or log[-1][0] != ('exit', 127)):
             return 'the run does not end with _exit(127)'
+    # the reason of a failed switch of user / chdir / exec is written to fd 2
+    for i, (e, r) in enumerate(log):
+        want_msg = None
+        if r is not None and r[0] == 'os' and e[0] in ('setgroups', 'setgid', 'setuid'):
+            want_msg = b"couldn't setuid to"
+        elif r is not None and r[0] == 'os' and e[0] == 'chdir':
+            want_msg = b"couldn't chdir to"
+        elif r is not None and e[0] in ('umask', 'execve'):
+            want_msg = b"couldn't exec"
+        if want_msg is not None:
+            nxt = log[i + 1][0] if i + 1 < len(log) else None
+            if not (nxt and nxt[0] == 'write' and nxt[1] == 2 and want_msg in nxt[2]):
+                return ('%s failed with %r but the reason is not written to descriptor 2 (next call: %r)'
+                        % (e[0], r, nxt and nxt[:2]))
     for i, (e, r) in enumerate(log):
         if e[0] != 'execve':
             continue
@@ -210,6 +224,9 @@ def judge(cfg, world, log, ending, exit_returns):
             return 'wrong descriptors closed'
         if 'setuid' in d and (d['setuid'][1] != cfg['uid'] or d['setgid'][1] != world['pw'][2]):
             return 'switched to the wrong identity'
+        if 'setgroups' in d and tuple(d['setgroups'][1]) != (world['pw'][2],) + tuple(world.get('groups', [])):
+            return ('supplementary groups set to %r, the configured user has %r (primary gid first)'
+                    % (list(d['setgroups'][1]), [world['pw'][2]] + list(world.get('groups', []))))
         if 'chdir' in d and d['chdir'][1] != cfg['directory']:
             return 'wrong directory'
         if 'umask' in d and d['umask'][1] != cfg['umask']:
@@ -333,7 +350,6 @@ def _run(chk, wd, proved):
     distinct = set()
     n_cfg = 0
     n_child = 0
-    setuid_raise_hits = 0
     for (label, cfg, world, kinds, er) in grids(chk.tier):
         n_cfg += 1
         paths, pmeta = [], []
@@ -371,11 +387,6 @@ def _run(chk, wd, proved):
             paths.append(term)
             pmeta.append((trail, log, ending))
             distinct.add((tuple((e[0], None if r is None else r[0]) for e, r in log), str(ending)))
-            # the known finding: os.setuid itself raising OSError
-            if any(e[0] == 'setuid' and r is not None and r[0] == 'os' for e, r in log):
-                msgs = [e[2] for e, r in log if e[0] == 'write']
-                if not any(b'setuid' in m for m in msgs):
-                    setuid_raise_hits += 1
         n_child += len(paths)
         # split big groups so that one Coq file stays small
         if sum(len(g[4]) for g in gmeta) > 150000:
@@ -407,7 +418,8 @@ def _run(chk, wd, proved):
                              "Can't find uid %r" % (user,): '(Some RNoUid)',
                              "Can't drop privilege as nonroot user": '(Some RNonRoot)',
                              'Could not set groups of effective user': '(Some RSetgroups)',
-                             'Could not set group id of effective user': '(Some RSetgid)'}
+                             'Could not set group id of effective user': '(Some RSetgid)',
+                             'Could not set user id of effective user': '(Some RSetuid)'}
                     if rv not in table:
                         chk.violation({'kind': 'drop_privileges returned an unknown message', 'value': repr(rv)}, nofail=True)
                         continue
@@ -448,11 +460,6 @@ def _run(chk, wd, proved):
     if chk.tier == 'thorough':
         smoke = fork_smoke(chk, wd)
 
-    if setuid_raise_hits:
-        chk.known_finding('C18-setuid-raises',
-                          'os.setuid() raising OSError in the child (after setgroups and setgid succeeded) is not caught by '
-                          'drop_privileges: the child exits 127 without writing why it could not switch user '
-                          '(%d enumerated runs, all agree with the model)' % setuid_raise_hits)
     if not proved:
         chk.violation({'kind': 'proof obligation no longer checks', 'detail': chk.proof_failure,
                        'file': 'coq/props/C18.v'}, nofail=not chk.violations)
